@@ -4,15 +4,6 @@ from . import core, impl, par, workers
 from .tlc import MachineryError
 
 
-def spaced(chars, rng):
-    """join a key, sometimes with a register separator blank (qiskit does that for several classical registers)"""
-    s = "".join(chars)
-    if len(s) > 2 and rng.random() < 0.2:
-        k = rng.randrange(1, len(s))
-        s = s[:k] + " " + s[k:]
-    return s
-
-
 def run_scenarios(ck, jobs, files, rng, what):
     """jobs: list of scenario dicts {N, m, list, conn, comps, kind, meas, full, dm}. Returns list of (job, phase_b, tomo_verdict, fitter_verdicts)."""
     core.dbg(what, "scenarios", len(jobs))
@@ -30,7 +21,7 @@ def run_scenarios(ck, jobs, files, rng, what):
     for (ji, i), (cl, out) in zip(owner, v):
         if cl or not out:
             raise MachineryError(f"measure op failed: {cl} {out}")
-        counts.setdefault(ji, {})[i] = {spaced(k, rng): int(c) for k, c in out}
+        counts.setdefault(ji, {})[i] = {"".join(k): int(c) for k, c in out}      # over the N qubits; workers.device_counts re-keys them by each circuit's own measurement layout
     jobs2 = []
     for ji, (job, a) in enumerate(zip(jobs, pa)):
         if a["exc"]:
